@@ -112,6 +112,9 @@ def _gen_settings(rng, name):
         kw["salt"] = sv if rng.random() < 0.5 or not sv.isascii() else {"b": sv}  # {"b": ...}: handed over as bytes
     if name in IDENTS and rng.random() < 0.5:
         kw["ident"] = rng.choice(IDENTS[name])
+        if rng.random() < 0.3:
+            # the identifier as bytes, as an alias or in its canonical '$..$' spelling
+            kw["ident"] = {"b": kw["ident"] if rng.random() < 0.4 or kw["ident"].startswith("$") else "$" + kw["ident"] + "$"}
     if name == "bcrypt_sha256" and rng.random() < 0.4:
         kw["version"] = rng.choice([1, 2, 2, 3])
     if name == "cisco_type7" and rng.random() < 0.8:
@@ -119,11 +122,11 @@ def _gen_settings(rng, name):
     if name == "fshp" and rng.random() < 0.6:
         kw["variant"] = rng.choice([0, 0, 1, 2, 3, "0", "2", "sha1", "sha384", "sha512", 4, "md5"])
     if name == "scrypt" and rng.random() < 0.4:
-        kw[rng.choice(["block_size", "parallelism"])] = rng.choice([1, 2, 8, 0, 2 ** 31])
+        kw[rng.choice(["block_size", "parallelism"])] = rng.choice([1, 2, 8, 0, 2 ** 31, "0", "2", "8", "-1"])
     if name in ("bcrypt", "des_crypt", "django_bcrypt", "lmhash") and rng.random() < 0.3:
         kw["truncate_error"] = rng.choice([True, False, "true", "false"])
     if name == "scrypt" and rng.random() < 0.3:
-        kw["ident"] = rng.choice(["$7$", "$7$", "$scrypt$"])
+        kw["ident"] = rng.choice(["$7$", "$7$", "$scrypt$", {"b": "$7$"}, {"b": "$scrypt$"}])
     if name == "scrypt" and rng.random() < 0.2:
         kw["salt"] = {"b": rng.choice(["fixedsaltvalue", "abcd", "0123456789abcdef"])}  # a fixed raw salt, handed over as bytes
     if name == "unix_disabled" and rng.random() < 0.7:
@@ -342,6 +345,12 @@ class _W:
     def model_using(self, parent, kw, relaxed):
         """-> (verdict, child) with verdict in ok / must-raise / either"""
         base = parent.base
+        kw = dict(kw)
+        if isinstance(kw.get("ident"), dict):
+            kw["ident"] = kw["ident"]["b"]  # an identifier handed over as bytes means what the same text means
+        for k_ in ("block_size", "parallelism"):
+            if isinstance(kw.get(k_), str):
+                kw[k_] = int(kw[k_])  # a number given as text (as read from a configuration file) means that number
         hmin, hmax, smin, smax = self.hard(base)
         c = _Node(None, base, parent)
         c.lo, c.hi, c.d, c.vary, c.salt_size, c.ident, c.known = parent.lo, parent.hi, parent.d, parent.vary, parent.salt_size, parent.ident, parent.known
@@ -440,7 +449,8 @@ class _W:
             c.variant["_ident_set"] = True
         elif "ident" in kw:
             if base in IDENTS:
-                good = {"bcrypt": ["2a", "2b", "2y", "2", "$2b$"], "phpass": ["P", "H", "$P$"], "django_bcrypt": ["2a", "2b"]}[base]
+                good = {"bcrypt": ["2a", "2b", "2y", "2"], "phpass": ["P", "H"], "django_bcrypt": ["2a", "2b"]}[base]
+                good = good + ["$" + g_ + "$" for g_ in good]  # (alias or canonical spelling)
                 if kw["ident"] not in good:
                     return "must-raise", c
                 c.ident = kw["ident"].strip("$")
@@ -453,6 +463,7 @@ class _W:
             # 1024 bytes): the configured size is not what the hash shows, and very large sizes cannot be hashed at all
             if c.salt_size is not None and c.salt_size > 700:
                 c.known = False
+                verdict = "either" if verdict == "ok" else verdict  # (scrypt may refuse the pair right away: "salt too large")
             c.salt_size = None
         if "version" in kw:
             if kw["version"] not in (1, 2):
@@ -600,6 +611,8 @@ class _W:
             kw["relaxed"] = True
         if isinstance(kw.get("salt"), dict):
             kw["salt"] = kw["salt"]["b"].encode("ascii")  # (the program file holds text; this setting is handed over as bytes)
+        if isinstance(kw.get("ident"), dict):
+            kw["ident"] = kw["ident"]["b"].encode("ascii")
         r = _call(parent.H.using, **kw)
         after = self.snapshots(skip=())
         # (4) neither the parent nor anybody else changed -- whether the call succeeded or not
